@@ -642,6 +642,14 @@ Proof.
     apply tvle_finish in H. cbn [fst] in H.
     exists s1. split; [exact H1|]. split; [|intros _; exact T].
     eapply tvle_same_l; [|exact H]. tv_norm. reflexivity.
+  - (* append request cut short by the connection *)
+    apply obind_inv in H. destruct H as ([code s1] & H1 & H).
+    apply tvle_on_append_request in H1.
+    destruct (code =? unexpectedErr); [discriminate|].
+    pose proof (finish_inv _ _ _ _ _ _ _ _ H) as (out2 & _ & _ & T).
+    apply tvle_finish in H. cbn [fst] in H.
+    exists s1. split; [exact H1|]. split; [|intros _; exact T].
+    eapply tvle_same_l; [|exact H]. tv_norm. reflexivity.
   - (* install snapshot *)
     apply obind_inv in H. destruct H as ([code s1] & H1 & H).
     apply tvle_on_install_snap_request in H1.
